@@ -486,6 +486,23 @@ def corr_scanstate(ck: core.Check, drv) -> None:
                 if mism <= 5:
                     ck.broken("correspondence", f"scanStateTy model-vs-op.scan ({module})",
                               f"S0={json.dumps(a)} R={json.dumps(b)} model={json.dumps(m)} real={json.dumps(real)}")
+    # two / three states at once: every slot gets ITS OWN merged type (slot mix-ups)
+    by_pair = {json.dumps([a, b]): m for (a, b), m in zip(pairs, model)}
+    multi_n = 0
+    for i in range(ck.pick(40, 400)):
+        n = ck.rng.randrange(2, 4)
+        sel = [ck.rng.choice(pairs) for _ in range(n)]
+        ms = [by_pair[json.dumps([a, b])] for a, b in sel]
+        want = {"err": "InferenceError"} if any("err" in m for m in ms) else {"tys": [m["ty"] for m in ms]}
+        module = P.OPSET_MODULES[i % len(P.OPSET_MODULES)]
+        real = IF.real_scan_states([a for a, _ in sel], [b for _, b in sel], module)
+        multi_n += 1
+        ck.count(("scanstates", module, json.dumps(sel)))
+        if want != real:
+            mism += 1
+            if mism <= 5:
+                ck.broken("correspondence", f"scanStateTys model-vs-op.scan ({module}, {n} states)",
+                          f"pairs={json.dumps(sel)} model={json.dumps(want)} real={json.dumps(real)}")
     runs = [{"k": "scanguard", "body": kind, "state": {"e": "f32", "s": sh}, "n": n}
             for kind in ("keep", "double", "head", "flatten") for sh in ([3], [1], [2, 3], [1, 4], [0]) for n in (1, 2, 3)]
     rmism, accepted, refused = 0, 0, 0
@@ -504,7 +521,7 @@ def corr_scanstate(ck: core.Check, drv) -> None:
             if rmism <= 3:
                 ck.broken("correspondence", "guardBody (Scan loop-state rule) model-vs-onnxruntime (raw Scan node)",
                           f"req={json.dumps(rq)} model={json.dumps(m)} runtime={json.dumps(real)}")
-    ck.cov["scanstate_correspondence"] = {"type_pairs": len(pairs), "modules": list(P.OPSET_MODULES), "type_mismatches": mism,
+    ck.cov["scanstate_correspondence"] = {"type_pairs": len(pairs), "multi_state_cases": multi_n, "modules": list(P.OPSET_MODULES), "type_mismatches": mism,
                                           "real_outcomes": outcomes, "raw_runs": len(runs), "runtime_accepted": accepted,
                                           "runtime_refused": refused, "raw_mismatches": rmism}
 
